@@ -1660,6 +1660,64 @@ def C05_full_statement : Prop :=
       (∃ k, k ≠ "" ∧ (st.db.msgById d.msgId).bind (·.orderKey) = some k ∧ (st.db.msgById e.msgId).bind (·.orderKey) = some k) →
       e.publishedAt < d.publishedAt → e.isOpen st.now = true → st.db.eligible s st.now d = false
 
+/-- the witness against the full statement (the recorded finding `overtake-seek-reopened-predecessor`,
+    replayed on the real code by `corpus/directed-seek-reopens-predecessor.json`): two messages of key
+    "k" are delivered and acknowledged in order; a Seek to the past re-opens both; a third message of
+    the key is published (linked behind the second); the client acknowledges the second again by the
+    ack id it still holds — the third is now eligible while the first is outstanding -/
+def seekWitness : List Op := [
+  .createTopic "projects/p/topics/t" [] 1,
+  .createSub { name := "projects/p/subscriptions/o", topicName := "projects/p/topics/t", ttl := 1000000000000,
+               messageTtl := 100000000000, ordered := true, labels := [], pushEndpoint := "", minBackoff := 0,
+               maxBackoff := 0, filter := "", maxAttempts := 0, dlTopic := "" } 2,
+  .publish "projects/p/topics/t" 1 [{ id := 10, payload := "a", plen := 1, attrs := [], orderKey := "k", fwds := [⟨2, 11, none⟩] }],
+  .publish "projects/p/topics/t" 1 [{ id := 12, payload := "b", plen := 1, attrs := [], orderKey := "k", fwds := [⟨2, 13, some 11⟩] }],
+  .pull "projects/p/subscriptions/o" 10 1000 false 1 { cands := [11], delays := [(11, 11000000000)], fwds := [] },
+  .ack [11],
+  .pull "projects/p/subscriptions/o" 10 1000 false 1 { cands := [13], delays := [(13, 11000000000)], fwds := [] },
+  .ack [13],
+  .seekTime "projects/p/subscriptions/o" (-1),
+  .publish "projects/p/topics/t" 1 [{ id := 14, payload := "c", plen := 1, attrs := [], orderKey := "k", fwds := [⟨2, 15, some 13⟩] }],
+  .ack [13]]
+
+/-- does the state violate the ordering property (executable form of its negation) -/
+def overtaken (st : St) : Bool :=
+  st.db.subs.any fun s => s.ordered && st.db.dels.any fun d => st.db.dels.any fun e =>
+    d.subId == s.id && e.subId == s.id &&
+    (match (st.db.msgById d.msgId).bind (·.orderKey), (st.db.msgById e.msgId).bind (·.orderKey) with
+     | some k1, some k2 => k1 == k2 && k1 != ""
+     | _, _ => false) &&
+    decide (e.publishedAt < d.publishedAt) && e.isOpen st.now && st.db.eligible s st.now d
+
+example : (outs {} seekWitness).map (·.ok) = [true, true, true, true, true, true, true, true, true, true, true] := by decide
+
+/-- **the full statement is false** (of the model, and — the same history — of the code): a Seek is all it
+    takes.  `C05_fragment_dl` shows that nothing else does. -/
+theorem C05_full_statement_false : ¬ C05_full_statement := by
+  intro h
+  have hv : overtaken (run {} seekWitness) = true := by decide
+  unfold overtaken at hv
+  obtain ⟨s, hs, hv⟩ := List.any_eq_true.mp hv
+  simp only [Bool.and_eq_true] at hv
+  obtain ⟨hord, hv⟩ := hv
+  obtain ⟨d, hd, hv⟩ := List.any_eq_true.mp hv
+  obtain ⟨e, he, hv⟩ := List.any_eq_true.mp hv
+  simp only [Bool.and_eq_true, beq_iff_eq, decide_eq_true_eq] at hv
+  obtain ⟨⟨⟨⟨⟨hds, hes⟩, hkey⟩, hlt⟩, hopen⟩, hel⟩ := hv
+  have hkey' : ∃ k, k ≠ "" ∧ ((run {} seekWitness).db.msgById d.msgId).bind (·.orderKey) = some k ∧
+      ((run {} seekWitness).db.msgById e.msgId).bind (·.orderKey) = some k := by
+    cases h1 : ((run {} seekWitness).db.msgById d.msgId).bind (·.orderKey) with
+    | none => rw [h1] at hkey; simp at hkey
+    | some k1 =>
+      cases h2 : ((run {} seekWitness).db.msgById e.msgId).bind (·.orderKey) with
+      | none => rw [h1, h2] at hkey; simp at hkey
+      | some k2 =>
+        rw [h1, h2] at hkey
+        simp only [Bool.and_eq_true, beq_iff_eq, bne_iff_ne, ne_eq] at hkey
+        exact ⟨k1, hkey.2, rfl, by rw [hkey.1]⟩
+  have := h seekWitness s hs hord d hd e he hds hes hkey' hlt hopen
+  rw [this] at hel; cases hel
+
 /-! ### the property outright, for a fragment of the operations -/
 
 section fragment
